@@ -1,5 +1,5 @@
 from .. import facts
-from ..rules import tables, status, factors, codec
+from ..rules import filt, tables, status, factors, codec
 
 
 def run(ck):
@@ -11,7 +11,9 @@ def run(ck):
     tables.r3_layouts(ck, P)
     tables.r4_cache_key(ck, P)
     status.r5_blt_fill(ck, P)
+    factors.r4_c_combiners(ck, P)
     factors.r9_simd_combiners(ck, P)
     factors.r10_composite_bodies(ck, P)
     status.r_fill_word(ck, P, 'C02-R11')
+    filt.r7_signed_totals(ck, P, 'C02-R12')
     codec.r8_scalar_helpers(ck, P)
